@@ -39,8 +39,8 @@ RULE = ("networks of 2..6 nodes (8 thorough), <= 12 arcs (16), costs -3..6 built
         "(plus unbalanced and capacity-infeasible ones) for network_simplex, which also receives every s-t instance; "
         "rectangular assignment matrices 0..5 x 0..5; non-trivial = the model made >= 2 augmentations or used a "
         "backward residual arc; distinct by canonical (function, instance)")
-TIMEOUT = 2.5        # min_cost_flow / solve_assignment: >= 1000x the run time of any explored instance
-TIMEOUT_NS = 40.0    # network_simplex stops at max_iter = 1e6 (about 4-10 s on these sizes)
+TIMEOUT = 1.5        # min_cost_flow / solve_assignment: >= 1000x the run time of any explored instance
+TIMEOUT_NS = 15.0    # network_simplex stops at max_iter = 1e6 (about 4-10 s on these sizes)
 
 
 # ---------------------------------------------------------------------------
@@ -87,6 +87,26 @@ def gen_arcs(rng, n, big, feature_free=False):
     return arcs
 
 
+def fix_negative_cycles(n, arcs):
+    """raise arc costs until Bellman-Ford (all arcs, capacities ignored) finds no negative cycle"""
+    arcs = [list(a) for a in arcs]
+    for _ in range(200):
+        dist = [0] * n
+        last = None
+        for _ in range(n + 1):
+            last = None
+            for a in arcs:
+                if dist[a[0]] + a[3] < dist[a[1]]:
+                    dist[a[1]] = dist[a[0]] + a[3]
+                    last = a
+            if last is None:
+                break
+        if last is None:
+            break
+        last[3] += 1
+    return [tuple(a) for a in arcs]
+
+
 def py_maxflow(n, arcs, s, t):
     """plain max flow (generator aid only: picks saturating / infeasible demands)"""
     if s == t:
@@ -121,11 +141,30 @@ def py_maxflow(n, arcs, s, t):
 
 def gen_mcf(rng, big):
     n = rng.choice([2, 3, 3, 4, 4, 5, 5, 6] + ([7, 8] if big else []))
-    feature_free = rng.random() < 0.45
+    feature_free = rng.random() < 0.62
     arcs = gen_arcs(rng, n, big, feature_free)
     s, t = rng.sample(range(n), 2)
     if rng.random() < 0.02:
         t = s
+    if s != t and rng.random() < 0.75:   # plant s-t paths so that most instances can route something
+        for _ in range(rng.choice([1, 1, 2])):
+            inner = [x for x in range(n) if x not in (s, t)]
+            rng.shuffle(inner)
+            p = [s] + inner[:rng.randint(0, min(3, len(inner)))] + [t]
+            for i in range(len(p) - 1):
+                u, v = p[i], p[i + 1]
+                have = {(a[0], a[1]) for a in arcs}
+                if feature_free and (v, u) in have:
+                    break
+                if feature_free and (u, v) in have:
+                    continue
+                arcs.append((u, v, rng.randint(1, 6), rng.randint(-1, 5)))
+    arcs = fix_negative_cycles(n, arcs)
+    if feature_free:          # (raising a cost may have split a parallel group: re-unify upwards)
+        top = {}
+        for a in arcs:
+            top[(a[0], a[1])] = max(top.get((a[0], a[1]), a[3]), a[3])
+        arcs = [(a[0], a[1], a[2], top[(a[0], a[1])]) for a in arcs]
     if rng.random() < 0.06:   # a terminal without arcs
         x = rng.choice([s, t])
         arcs = [a for a in arcs if x not in (a[0], a[1])]
@@ -135,7 +174,7 @@ def gen_mcf(rng, big):
         demand = 0
     elif r < 0.55:
         demand = rng.randint(1, max(1, mf))
-    elif r < 0.8:
+    elif r < 0.88:
         demand = mf
     else:
         demand = mf + rng.randint(1, 3)
@@ -497,21 +536,39 @@ def ns_suffix(arcs, out):
     return ":parallel_arcs" if has_parallel(arcs) else ""
 
 
+def likely_hog(case):
+    """min_cost_flow on an instance with the node-pair feature may loop while growing a list by ~200 MB/s;
+    tearing such workers down stalls the pool long enough to make innocent neighbours miss their deadline"""
+    if case["fn"] != "min_cost_flow":
+        return False
+    idx = fc.index_map(case["graph"], extra=(case["source"], case["sink"]))
+    return has_feature(fc.arcs_in_order(case["graph"], idx, with_cost=True))
+
+
 def run_impl(cases):
-    """run the implementation; a timeout is confirmed by running the call once more (DESIGN §2.4)"""
+    """run the implementation; a timeout of the short limit is confirmed by running the call again
+    (DESIGN §2.4): suspected memory hogs in batches of one call per worker, everything else in a calm pool"""
     outs = [None] * len(cases)
-    for sel, to in ((lambda c: c["fn"] != "network_simplex", TIMEOUT), (lambda c: c["fn"] == "network_simplex", TIMEOUT_NS)):
-        ids = [i for i, c in enumerate(cases) if sel(c)]
-        res = run_pool(impl, [cases[i] for i in ids], timeout=to)
-        again = [i for i, r in zip(ids, res) if r[0] == "timeout"]
-        for i, r in zip(ids, res):
+    ids = [i for i, c in enumerate(cases) if c["fn"] != "network_simplex"]
+    for i, r in zip(ids, run_pool(impl, [cases[i] for i in ids], timeout=TIMEOUT)):
+        outs[i] = r
+    late = [i for i in ids if outs[i][0] == "timeout"]
+    calm = [i for i in late if not likely_hog(cases[i])]
+    hogs = [i for i in late if likely_hog(cases[i])]
+    for i, r in zip(calm, run_pool(impl, [cases[i] for i in calm], timeout=TIMEOUT)):
+        outs[i] = r
+    for i in [i for i in calm if outs[i][0] == "timeout"]:      # still late in a calm pool: once more, alone
+        outs[i] = run_pool(impl, [cases[i]], timeout=2 * TIMEOUT)[0]
+    for k in range(0, len(hogs), 16):
+        part = hogs[k:k + 16]
+        for i, r in zip(part, run_pool(impl, [cases[i] for i in part], timeout=TIMEOUT, procs=len(part))):
             outs[i] = r
-        if again:
-            res2 = run_pool(impl, [cases[i] for i in again], timeout=to, procs=8)
-            for i, r in zip(again, res2):
-                outs[i] = r
+    # network_simplex stops at max_iter: a 15 s limit is not scheduler noise
+    ids = [i for i, c in enumerate(cases) if c["fn"] == "network_simplex"]
+    for i, r in zip(ids, run_pool(impl, [cases[i] for i in ids], timeout=TIMEOUT_NS)):
+        outs[i] = r
     # classification aid for network_simplex calls that did not return
-    lost = [i for i, (c, r) in enumerate(zip(cases, outs)) if c["fn"] == "network_simplex" and r[0] != "ok"]
+    lost = [i for i in ids if outs[i][0] != "ok"]
     flags = run_pool(impl_ns_flag, [cases[i] for i in lost], timeout=20.0)
     for i, f in zip(lost, flags):
         outs[i] = outs[i] + ({"deep_rehang": f[0] == "ok" and bool(f[1])},)
